@@ -402,6 +402,20 @@ func run(c TCase) (map[string]int, error) {
 			feat["busy-descendant"]++
 		}
 	}
+	crashedEv := make(chan struct{})
+	if c.How == "crash" {
+		want := h.idOf(c.Target)
+		var once sync.Once
+		mon := e.SpawnFunc(func(ctx *actor.Context) {
+			if ev, ok := ctx.Message().(actor.ActorStoppedEvent); ok && ev.PID.ID == want {
+				once.Do(func() { close(crashedEv) })
+			}
+		}, "treemon")
+		// the Subscribe reaches the event stream's inbox before the crash message is even sent, hence
+		// before the ActorStoppedEvent that the crash leads to
+		e.Subscribe(mon)
+		defer func() { e.Unsubscribe(mon); e.Poison(mon) }()
+	}
 	// ---- third-party stops that overlap the shutdown
 	type concRun struct {
 		cs   ConcStop
@@ -473,7 +487,9 @@ func run(c TCase) (map[string]int, error) {
 		done = e.Poison(tp).Done()
 	case "crash":
 		e.Send(tp, crashMsg{})
-		done = h.nodes[c.Target].stoppedCh
+		// there is no stop context here; ActorStoppedEvent is published at the very end of the clean-up
+		// (the Stopped handler itself runs before the actor leaves its parent's children)
+		done = crashedEv
 		feat["death-by-max-restarts"]++
 	default:
 		return nil, nil
